@@ -83,6 +83,7 @@ class Ctx:
         self.solver.set('timeout', feas_timeout_ms)
         self.n_feas_queries = 0
         self.decided = {}
+        self.assumed_ids = set()
         self.model = None
         self._last_model = None
         self.feas_unknown = 0
@@ -290,6 +291,12 @@ class SymB:
     def __repr__(self):
         return f"SymB({self.t})"
 
+    def __deepcopy__(self, memo):
+        return self
+
+    def __copy__(self):
+        return self
+
 
 def mk_bool(t):
     """Return a python bool when the term is decided, else SymB."""
@@ -387,6 +394,12 @@ class SymR:
         s = str(self._t)
         return f"SymR({s if len(s) < 80 else s[:77] + '...'})"
 
+    def __deepcopy__(self, memo):
+        return self
+
+    def __copy__(self):
+        return self
+
     def __float__(self):
         if self.c is not None:
             return float(self.c)
@@ -469,7 +482,9 @@ class SymR:
         if self.c is not None:
             return SymR(abs(self.c))
         t = self.term()
-        return SymR(z3.If(t >= 0, t, -t))
+        out = SymAbs(z3.If(t >= 0, t, -t))
+        out.inner = self
+        return out
 
     # -- comparisons
     def _cmp(self, o, op):
@@ -549,6 +564,11 @@ class SymR:
 
     def square(self):
         return self * self
+
+
+class SymAbs(SymR):
+    """|x| that remembers x, so that |x|**2 folds to x*x (no case split)"""
+    __slots__ = ('inner',)
 
 
 numbers.Real.register(SymR)
@@ -636,6 +656,10 @@ def _assume_defined(t, text):
         return
     if z3.is_false(s):
         raise PathInfeasible()
+    tid = t.get_id()
+    if tid in c.assumed_ids:
+        return
+    c.assumed_ids.add(tid)
     c.assumptions.append((t, text))
     c.solver.add(t)
     c.model = None
@@ -655,6 +679,8 @@ def _real_pow(base, e):
     if ec is not None:
         if ec.denominator == 1:
             n = int(ec)
+            if isinstance(base, SymAbs) and n % 2 == 0 and getattr(base, 'inner', None) is not None:
+                base = base.inner
             if base.c is not None:
                 if n < 0 and base.c == 0:
                     raise ZeroDivisionError
@@ -962,16 +988,10 @@ def trig(x):
     quarter = 0
     pi_id = (c.pi.get_id(),) if c.pi is not None else None
     for k, (atom, q) in sorted(parts.items(), key=lambda kv: str(kv[1][0])):
-        if k == pi_id:
-            q4 = q * 2          # multiples of pi/2
-            if q4.denominator == 1:
-                quarter += int(q4)
-                continue
-            # general rational multiple of pi: its own base angle
-            key = ('pifrac', q.denominator)
-            bs, bc = _base_trig(c, key, c.pi / q.denominator)
-            ms, mc = _multiple(bs, bc, q.numerator)
-        elif abs(q.numerator) > 12:
+        if k == pi_id and (q * 2).denominator == 1:
+            quarter += int(q * 2)          # multiples of pi/2: exact quarter turns
+            continue
+        if abs(q.numerator) > 12:
             # large multiplier (e.g. a float coefficient): q0*atom is its own base
             # angle; later coefficients that are small integer multiples of q0 reuse it
             q0 = None
@@ -995,8 +1015,7 @@ def trig(x):
         key = ('const', const)
         hit = c.bases.get(key)
         if hit is None:
-            # exact float value of sin/cos of a constant (documented approximation)
-            hit = (SymR(Fraction(math.sin(float(const)))), SymR(Fraction(math.cos(float(const)))))
+            # sin/cos of a rational constant: a point on the unit circle (nothing else assumed)
             sv, cv = c.fresh('sinc'), c.fresh('cosc')
             c.defs[str(sv)] = ('sin', _q(const))
             c.defs[str(cv)] = ('cos', _q(const))
@@ -1119,6 +1138,12 @@ class SymC:
 
     def __repr__(self):
         return f"SymC({self.re!r}, {self.im!r})"
+
+    def __deepcopy__(self, memo):
+        return self
+
+    def __copy__(self):
+        return self
 
     def __complex__(self):
         if self.re.c is not None and self.im.c is not None:
